@@ -57,24 +57,27 @@ CHECKS = {
         technique="Coq proof over regenerated dtype tables + hand model of packing/representations; vm_compute correspondence",
         design_ref="§6 C04, §10"),
     "C05": dict(
-        level="translation_validation",
-        text="A term language for models (nested subgraphs, functions, initializers) with a denotational semantics over "
-             "UNINTERPRETED operators (interp is a Section variable constrained only by what the passes rely on) and executable "
-             "models of 15 passes. Proved in Coq for every interp/environment/fuel (closed, 22 theorems): semantics + signature "
-             "preservation of CommonSubexpressionElimination (whole pass: loop + graph-output Identity path, exact key), "
-             "RemoveUnusedNodes (incl. schema-driven optional-output trimming, schema as parameter; the BatchNormalization "
-             "training_mode case is refuted = known finding), IdentityElimination, both initializer deduplication passes, "
-             "LiftConstantsToInitializers, OutputFix, LiftSubgraphInitializers, Add/RemoveInitializersFromInputs, "
-             "AddDefaultAttributes (defaults table as parameter), TopologicalSort (as a checked relation), and C05_sequence over "
-             "these eleven passes. NOT proved: InlinePass and RemoveUnusedFunctionsPass (modelled / execution oracle only); "
-             "NameFix, ClearMetadata, ShapeInference, RemoveUnusedOpsets get a frame check only (names/metadata are outside the "
-             "term language) — hence translation validation for the property as a whole: the real pass output, converted to "
-             "terms, must agree with the model pass inside Coq on generated valid models and pass sequences, and the oracle "
-             "executes before/after with onnx.reference / onnxruntime (bitwise, NaN-aware), checks the I/O signature and "
-             "runs onnx.checker. The CSE non-deterministic operator set is regenerated from source.",
-        note=TRUST + "Modelled, not verified: real operator semantics (uninterpreted), onnx.checker beyond the structural Valid, "
-             "shape inference, schemas (optional outputs, default attributes).",
-        technique="Coq simulation proofs for 11 passes + per-case Coq comparison of real pass outputs with model passes; execution oracle",
+        level="proof",
+        text="A term language for models (nested subgraphs, functions, initializers, opaque annotations) with a denotational "
+             "semantics over UNINTERPRETED operators (interp is a Section variable constrained only by what the passes rely "
+             "on) and executable models of the passes. 26 closed theorems, for every interp/environment/fuel: semantics + "
+             "signature preservation of CommonSubexpressionElimination (whole pass), RemoveUnusedNodes (incl. schema-driven "
+             "optional-output trimming; the BatchNormalization training_mode case is refuted = known finding), "
+             "IdentityElimination, both initializer deduplication passes, LiftConstantsToInitializers, OutputFix, "
+             "LiftSubgraphInitializers, Add/RemoveInitializersFromInputs, AddDefaultAttributes, TopologicalSort (checked "
+             "relation), RemoveUnusedFunctions and InlinePass (environment-changing simulation; nested calls, attribute "
+             "parameters and defaults, calls inside subgraphs), the frame passes NameFix/ClearMetadata/ShapeInference/"
+             "RemoveUnusedOpsets (den ignores annotations), and C05_sequence over all thirteen modelled passes. The models "
+             "of RemoveUnusedFunctions and Inline are CERTIFICATE-CHECKED: they apply the implementation's rule only when an "
+             "executable certificate (drop_closedb / inline_certb / live_agreeb, proved sound) holds, else leave the model "
+             "unchanged — which the correspondence would show as a mismatch with the code. Tie: the real pass output, "
+             "converted to terms, must agree with the model pass inside Coq on generated valid models and pass sequences; the "
+             "oracle executes before/after with onnx.reference / onnxruntime (bitwise, NaN-aware), checks the I/O signature "
+             "and runs onnx.checker. The CSE non-deterministic operator set is regenerated from source.",
+        note=TRUST + "Modelled, not verified: real operator semantics (uninterpreted; hypothesis interp_graph_ids: operators see "
+             "graph attributes only through their denotations), onnx.checker beyond the structural Valid, shape inference, "
+             "schemas (optional outputs, default attributes).",
+        technique="Coq simulation proofs for all modelled passes (certificate-checked models for Inline/RemoveUnusedFunctions); vm_compute correspondence; execution oracle",
         design_ref="§6 C05, §10"),
     "C06": dict(
         level="proof",
